@@ -65,6 +65,10 @@ def begin_match(m, lin, unsure):
 
     txt = txt[:beg] + '>>>' + txt[beg:end] + '<<<' + txt[end:]
     msg += 'Context: ' + protect_html(txt)
+    # NB: line breaks are marked with '<br>\n' by protect_html(), this is
+    # used for splitting in generate_highlight() and add_line_numbers();
+    # it must not appear inside of the attribute value
+    msg = msg.replace('<br>\n', '\n')
 
     style = highlight_style_unsure if unsure else highlight_style
     beg_tag = '<span style="' + style + '" title="' + msg + '">'
